@@ -124,7 +124,8 @@ def worst : List Ev → Ev
 def task (im : Impl) (r : Runner) (c : Code) (dl : Delivery) : List Ev × List Delivery :=
   match assertIn im r dl.dst dl.d with
   | .pass =>
-    let out := if r.isPassthrough dl.dst then dl.d else c.body dl.dst dl.d
+    -- START / END are not nodes: no body runs there (END is settled before it could be a task)
+    let out := if r.isPassthrough dl.dst || dl.dst = START || dl.dst = END then dl.d else c.body dl.dst dl.d
     emit im r c dl.dst out
   | e => ([e], [])
 
